@@ -66,3 +66,15 @@ func (u *Uint64) Store(v uint64) { vrt.PointAtomic(); u.v.Store(v) }
 func (u *Uint64) Add(d uint64) uint64 { vrt.PointAtomic(); return u.v.Add(d) }
 func (u *Uint64) Inc() uint64 { vrt.PointAtomic(); return u.v.Inc() }
 func (u *Uint64) CAS(o, n uint64) bool { vrt.PointAtomic(); return u.v.CAS(o, n) }
+
+// Value mirrors go.uber.org/atomic.Value (a sync/atomic.Value).
+type Value struct{ v uatomic.Value }
+
+func (v *Value) Load() interface{}                    { vrt.PointAtomic(); return v.v.Load() }
+func (v *Value) Store(x interface{})                  { vrt.PointAtomic(); v.v.Store(x) }
+func (v *Value) CompareAndSwap(o, n interface{}) bool { vrt.PointAtomic(); return v.v.CompareAndSwap(o, n) }
+func (v *Value) Swap(n interface{}) interface{}       { vrt.PointAtomic(); return v.v.Swap(n) }
+func (u *Uint64) Dec() uint64                         { vrt.PointAtomic(); return u.v.Dec() }
+func (u *Uint64) Sub(d uint64) uint64                 { vrt.PointAtomic(); return u.v.Sub(d) }
+func (u *Uint64) Swap(n uint64) uint64                { vrt.PointAtomic(); return u.v.Swap(n) }
+func (u *Int64) Swap(n int64) int64                   { vrt.PointAtomic(); return u.v.Swap(n) }
